@@ -18,6 +18,7 @@ RULE = (
     ' Also: late-campaign screens (dozens of unobserved plates spread over hundreds of ids) with score entries delivered twice; a generator whose draws repeat in half the cases.'
     ' Half the cases hand select_next_plate stale ids as well (-1, ids beyond the screen).'
     ' Stale-id lists also repeat a selection of the batch.'
+    ' Also: a held plate object merged in place with a plate of another sample and handed to the policy again.'
 )
 ASSUMPTIONS = [
     "histories start from an empty batch and only follow selections the policy itself allowed (the quantifier of the property)",
@@ -239,6 +240,30 @@ def check_case(case):
             revealed += 1
         if cb.get(s, 0) + 1 == k:
             completed += 1
+    # plate objects a caller keeps across policy calls: two of them (different samples) are merged in place afterwards; handed to the
+    # policy again, the merged object holds two samples and is refused like any multi-sample plate
+    held = sorted((p_ for p_ in screen.plates if not bool(np.all(p_.observation_mask))), key=lambda p_: int(p_.plate_id))
+    by_sample = {}
+    for p_ in held:
+        nm_ = sorted(set(str(x) for x in p_.sample_names))
+        if len(nm_) == 1:
+            by_sample.setdefault(nm_[0], []).append(p_)
+    if len(by_sample) >= 2 and not case.get("reveal_selected") and len(case["picks"]) % 2 == 0:
+        try:
+            policy.filter_eligible_plates(batch_plates=[], unobserved_plates=held, rng=rng)
+        except ValueError:
+            pass
+        groups_ = [v for _, v in sorted(by_sample.items())]
+        pa_, pb_ = groups_[0][0], groups_[1][len(case["picks"]) % len(groups_[1])]
+        merged_ = pa_.merge(pb_)
+        two_ = merged_ if merged_ is not None else pa_
+        if len(set(str(x) for x in two_.sample_names)) >= 2:
+            try:
+                policy.filter_eligible_plates(batch_plates=[], unobserved_plates=[two_] + [p_ for p_ in held if p_ is not pa_ and p_ is not pb_], rng=rng)
+            except ValueError:
+                labels.append("merged-two-sample-plate-refused")
+            else:
+                raise Violation("multi_sample.refused_after_merge", "a plate object the policy had seen before, since merged in place with a plate of another sample (it now holds %r), was accepted as a candidate" % sorted(set(str(x) for x in two_.sample_names)))
     if completed:
         labels.append("completed>=1")
     if revealed:
